@@ -149,7 +149,11 @@ def observe(case: Case, direction: str):
         if id(r) in seen or _kind(r) != "real":
             continue
         seen.add(id(r))
-        sl = _slots(r)
+        try:
+            sl = _slots(r)
+        except Exception as e:          # e.g. hints of r.t do not resolve: the table cannot be read back
+            unmapped.append(f"slots of {type(r).__name__}: {e!r}"[:80])
+            continue
         if sl is None:
             continue
         rs = []
